@@ -143,12 +143,27 @@ class BaseCollection(BaseDisplayRepr):
     @children.setter
     def children(self, children):
         """Set Collection children."""
+        self._replace_children(list(self._children), children)
+
+    def _replace_children(self, removed, new_children):
+        """Unlink the children `removed` and add `new_children` instead. All or nothing: when
+        the new children are refused, the collection and its old children are as before."""
         # pylint: disable=protected-access
-        for child in self._children:
+        old_children = self._children
+        for child in removed:
             child._parent = None
-        self._children = []
+        self._children = [
+            child for child in old_children if not any(child is r for r in removed)
+        ]
         self._update_src_and_sens()
-        self.add(*children, override_parent=True)
+        try:
+            self.add(*new_children, override_parent=True)
+        except Exception:
+            self._children = old_children
+            for child in removed:
+                child._parent = self
+            self._update_src_and_sens()
+            raise
 
     @property
     def children_all(self):
@@ -163,17 +178,9 @@ class BaseCollection(BaseDisplayRepr):
     @sources.setter
     def sources(self, sources):
         """Set Collection sources."""
-        # pylint: disable=protected-access
-        new_children = []
-        for child in self._children:
-            if child in self._sources:
-                child._parent = None
-            else:
-                new_children.append(child)
-        self._children = new_children
-        self._update_src_and_sens()
         src_list = format_obj_input(sources, allow="sources")
-        self.add(*src_list, override_parent=True)
+        removed = [child for child in self._children if child in self._sources]
+        self._replace_children(removed, src_list)
 
     @property
     def sources_all(self):
@@ -188,17 +195,9 @@ class BaseCollection(BaseDisplayRepr):
     @sensors.setter
     def sensors(self, sensors):
         """Set Collection sensors."""
-        # pylint: disable=protected-access
-        new_children = []
-        for child in self._children:
-            if child in self._sensors:
-                child._parent = None
-            else:
-                new_children.append(child)
-        self._children = new_children
-        self._update_src_and_sens()
         sens_list = format_obj_input(sensors, allow="sensors")
-        self.add(*sens_list, override_parent=True)
+        removed = [child for child in self._children if child in self._sensors]
+        self._replace_children(removed, sens_list)
 
     @property
     def sensors_all(self):
@@ -213,17 +212,9 @@ class BaseCollection(BaseDisplayRepr):
     @collections.setter
     def collections(self, collections):
         """Set Collection collections."""
-        # pylint: disable=protected-access
-        new_children = []
-        for child in self._children:
-            if child in self._collections:
-                child._parent = None
-            else:
-                new_children.append(child)
-        self._children = new_children
-        self._update_src_and_sens()
         coll_list = format_obj_input(collections, allow="collections")
-        self.add(*coll_list, override_parent=True)
+        removed = [child for child in self._children if child in self._collections]
+        self._replace_children(removed, coll_list)
 
     @property
     def collections_all(self):
